@@ -309,10 +309,18 @@ def _shrink_plan_candidates(plan, recorded, cid, op_idx):
     # 6. fewer switches
     if recorded and recorded.get('switches'):
         n = len(recorded['switches'])
-        for i in range(n):
-            rec = copy.deepcopy(recorded)
-            del rec['switches'][i]
-            yield plan, rec, cid, op_idx
+        # halves, quarters, ... then single switches (only for short schedules: a lockstep run records 10^5 switches)
+        k = 2
+        while n // k >= 1 and k <= 16:
+            size = n // k
+            for i in range(0, n, size):
+                rec = dict(recorded, switches=recorded['switches'][:i] + recorded['switches'][i + size:])
+                yield plan, rec, cid, op_idx
+            k *= 2
+        if n <= 24:
+            for i in range(n):
+                rec = dict(recorded, switches=recorded['switches'][:i] + recorded['switches'][i + 1:])
+                yield plan, rec, cid, op_idx
 
 
 def _reproduce_many(prop, cands, v, hashseed, iot, ctx_file, scratch, workers):
@@ -376,7 +384,8 @@ def minimise(prop, v, seed, tier, ctx, ctx_file, scratch, budget=45, workers=16)
     t_start = time.time()
     while rounds < 6 and time.time() - t_start < 240:      # wall-clock guard only: minimisation is best effort
         rounds += 1
-        cands = list(_shrink_plan_candidates(cur['plan'], cur['recorded'], cid, op_idx))[:32]
+        import itertools
+        cands = list(itertools.islice(_shrink_plan_candidates(cur['plan'], cur['recorded'], cid, op_idx), 32))
         if not cands:
             break
         small = small_ctx_file(ctx, history + [{'plan': c[0]} for c in cands] + [cur], scratch, 'r%d' % rounds)
